@@ -73,7 +73,7 @@ CHECKS = {
         "technique": "solver-based bounded model checking (Kani/CBMC SAT) of the compiled /repo code (in-crate harness)",
     },
     "C14": {
-        "text": "BitPage with fully symbolic contents: insert/remove/contains/insert_range/remove_range/clear/union/intersect/subtract/iter/iter_after/iter_ranges/len against the 512-element mathematical set, one operation from an arbitrary page; BitSet over two pages with a concrete layout (majors {0,2} stored out of order, and {0,1}) and symbolic contents: contains / insert / remove / len and the first range of iter_ranges against the mathematical set (set-level remove_range only in the thorough tier).",
+        "text": "BitPage with fully symbolic contents: insert/remove/contains/insert_range/remove_range/clear/union/intersect/subtract/iter/iter_after/iter_ranges/len against the 512-element mathematical set, one operation from an arbitrary page; BitSet over two pages with a concrete layout (majors {0,2} stored out of order, and {0,1}) and symbolic contents: contains / insert / remove / len and the first range of iter_ranges against the mathematical set (set-level remove_range: single-element ranges inside one word in the quick tier, general ranges only in the thorough tier).",
         "design_ref": "DESIGN.md §3 C14",
         "note": "Operation sequences through the public IntSet API, BitSet page maps, inverted sets, RangeSet and the sparse-bit-set codec are outside the claim (symbolic Vec insertion / VecDeque growth did not finish in 15 min).",
         "technique": "solver-based bounded model checking (Kani/CBMC SAT) of the compiled /repo code (in-crate harness, one inductive step from an arbitrary valid page)",
